@@ -27,15 +27,15 @@ EvStore == /\ Is("Store")
                   \* a documented refusal (ValueError) is admitted for texts of the troublesome alphabet only
                   p == IF p0 = "R" THEN (IF Ev.troublesome THEN "ok" ELSE "I") ELSE p0
               IN Note(p, "works")
-           /\ S' = StoreUpdate(S, Ev.m, Ev.n, Ev.d, Ev.out)
+           /\ S' = StoreUpdate(S, Ev.m, Ev.n, Ev.d, Ev.out, Ev.nlog)
 EvRetrieve == /\ Is("Retrieve")
-              /\ Note(RetrieveVerdict(S, Ev.m, Ev.out, Ev.c), Expected(Ev.m))
+              /\ Note(RetrieveVerdict(S, Ev.m, Ev.out, Ev.c), Expected(S, Ev.m))
               /\ UNCHANGED S
 EvResolve == /\ Is("ResolveName")
              /\ Note(ResolveVerdict(S, Ev.n, Ev.out, Ev.key), Cands(Ev.n))
              /\ UNCHANGED S
 EvRetrieveName == /\ Is("RetrieveName")
-                  /\ Note(RetrieveNameVerdict(S, Ev.n, Ev.out, Ev.c), Cands(Ev.n))
+                  /\ Note(RetrieveNameVerdict(S, Ev.n, Ev.out, Ev.c), {ExpectedName(S, Ev.n, x) : x \in Cands(Ev.n)})
                   /\ UNCHANGED S
 EvReadAnn == /\ Is("ReadAnn")
              /\ Note(AnnVerdict(S, Ev.n, Ev.out, Ev.d), Cands(Ev.n))
